@@ -4,6 +4,7 @@ import (
 	"bytes"
 	"fmt"
 	"reflect"
+	"regexp"
 	"runtime/debug"
 	"sort"
 	"strings"
@@ -18,6 +19,7 @@ import (
 	"github.com/yorkie-team/yorkie/pkg/document"
 	"github.com/yorkie-team/yorkie/pkg/document/change"
 	"github.com/yorkie-team/yorkie/pkg/document/json"
+	"github.com/yorkie-team/yorkie/pkg/document/operations"
 	"github.com/yorkie-team/yorkie/pkg/document/presence"
 	"github.com/yorkie-team/yorkie/pkg/document/time"
 	"github.com/yorkie-team/yorkie/pkg/key"
@@ -105,18 +107,22 @@ type server struct {
 	applied int64
 	dead    string // first replay error of doc
 	twins   []*twin
+	// sawArraySet: a stored change holds an ArraySet (see findingArraySetGC)
+	sawArraySet bool
 }
 
 type world struct {
-	wire bool
-	reps []*rep
-	srv  *server
-	ob   *observer
-	c    Case
+	// undoSeq marks the changes (by clientSeq) that an undo/redo produced
+	undoSeq map[time.ActorID]map[uint32]bool
+	wire    bool
+	reps    []*rep
+	srv     *server
+	ob      *observer
+	c       Case
 }
 
 func newWorld(wire bool, c Case, ob *observer) *world {
-	w := &world{wire: wire, c: c}
+	w := &world{wire: wire, c: c, undoSeq: map[time.ActorID]map[uint32]bool{}}
 	if wire {
 		w.ob = ob
 	}
@@ -124,11 +130,15 @@ func newWorld(wire bool, c Case, ob *observer) *world {
 	return w
 }
 
+var ptrRe = regexp.MustCompile(`0x[0-9a-f]{6,}`)
+
+// firstLine is the comparable part of an error text: first line, with
+// pointer values (some errors of the code under test print them) masked.
 func firstLine(s string) string {
 	if i := strings.IndexByte(s, '\n'); i >= 0 {
-		return s[:i]
+		s = s[:i]
 	}
-	return s
+	return ptrRe.ReplaceAllString(s, "0x?")
 }
 
 // safe runs f and turns an error or a panic of the code under test into text.
@@ -432,6 +442,10 @@ func (s *server) collect() (int, *kit.Failure) {
 	if !s.w.c.SrvGC || s.dead != "" {
 		return 0, nil
 	}
+	if s.sawArraySet && !kit.NoExclusions() {
+		s.w.ob.hit("excluded:" + findingArraySetGC)
+		return 0, nil
+	}
 	vec := s.minVector(s.doc.VersionVector())
 	n := 0
 	msg := safe(func() error { var e error; n, e = s.doc.GarbageCollect(vec); return e })
@@ -454,8 +468,8 @@ func (s *server) collect() (int, *kit.Failure) {
 		}
 		if same, ex := garbageSame(s.doc, tw.doc); !same {
 			if !ex {
-				return 0, kit.Failf("SNAPSHOT-TAIL-GC", "garbage collection at %v on the snapshot round-tripped at serverSeq %d: original purged %d and keeps %d, decoded purged %d and keeps %d",
-					vec, tw.at, n, s.doc.GarbageLen(), tn, tw.doc.GarbageLen())
+				return 0, kit.Failf("SNAPSHOT-TAIL-GC", "garbage collection at %v on the snapshot round-tripped at serverSeq %d: original purged %d and keeps %d, decoded purged %d and keeps %d; %s",
+					vec, tw.at, n, s.doc.GarbageLen(), tn, tw.doc.GarbageLen(), firstDiff(dump(s.doc.RootObject()), dump(tw.doc.RootObject())))
 			}
 			// the original counts garbage its own deep copy does not hold
 			tw.dead = true
@@ -703,7 +717,16 @@ func (s *server) pushPull(actor time.ActorID, req *change.Pack, wantSnapshot boo
 		if pc != nil {
 			pc = &presence.Change{ChangeType: pc.ChangeType, Presence: pc.Presence.DeepCopy()}
 		}
-		s.stored = append(s.stored, change.New(c.ID().DeepCopy().SetServerSeq(s.head), c.Message(), c.Operations(), pc))
+		ops := c.Operations()
+		for _, op := range ops {
+			if _, ok := op.(*operations.ArraySet); ok {
+				s.sawArraySet = true
+			}
+		}
+		if !s.w.wire && s.w.undoSeq[actor][c.ClientSeq()] {
+			ops = withoutUndoState(ops)
+		}
+		s.stored = append(s.stored, change.New(c.ID().DeepCopy().SetServerSeq(s.head), c.Message(), ops, pc))
 		ci.clientSeq = c.ClientSeq()
 	}
 	vv := req.VersionVector.DeepCopy()
@@ -731,6 +754,31 @@ func (s *server) pushPull(actor time.ActorID, req *change.Pack, wantSnapshot boo
 	res.from, res.to = req.Checkpoint.ServerSeq, initial
 	res.vv = s.minVector(req.VersionVector)
 	return res, nil
+}
+
+// withoutUndoState replaces the reverse Edit/TreeEdit operations of an
+// undo/redo change by their decoded copies. Such an operation object carries
+// state that is local to the undoing replica by design (isUndoOp and its
+// visible-index range: every Execute re-derives from/to from them and rewrites
+// the operation), which no peer ever sees in the real system; handing the
+// object itself to a peer would execute the undoing replica's local path
+// there. All other operations of the change stay native.
+func withoutUndoState(ops []operations.Operation) []operations.Operation {
+	out := make([]operations.Operation, len(ops))
+	for i, op := range ops {
+		out[i] = op
+		switch op.(type) {
+		case *operations.Edit, *operations.TreeEdit:
+			pb, err := converter.ToOperations([]operations.Operation{op})
+			if err != nil {
+				continue
+			}
+			if dec, err := converter.FromOperations(pb); err == nil && len(dec) == 1 {
+				out[i] = dec[0]
+			}
+		}
+	}
+	return out
 }
 
 func (s *server) pulled(r pullResult) []int {
@@ -1038,6 +1086,13 @@ func runCase(c Case, ob *observer) (fail *kit.Failure, hist []string) {
 			ob.hit("edit_error_both")
 		} else if (s.Op == "undo" || s.Op == "redo") && da == s.Op {
 			ob.hit("undo_redo_executed")
+			if cs := x.d.reps[i].d.CreateChangePack().Changes; len(cs) > 0 {
+				a := x.d.reps[i].actor
+				if x.d.undoSeq[a] == nil {
+					x.d.undoSeq[a] = map[uint32]bool{}
+				}
+				x.d.undoSeq[a][cs[len(cs)-1].ClientSeq()] = true
+			}
 		}
 		return x.compare(i, fmt.Sprintf("after %q on c%d", da, i))
 	}
